@@ -395,6 +395,103 @@ def userff_runs(ctx, thorough):
                         ctx.fail({"site": "Biomolecule.apply_force_field", "condition": "other-residue-changed-by-removing-a-residue-from-the-user-force-field", "ff": "user:" + base}, f"{label} with {base} minus {sorted(K)}: residue {l0} atom {a} {v[0]} -> {v[1]}", dict(casedict, residue=l0, atom=a))
 
 
+def names_only_pair(ctx, src, base, names_text):
+    """the two runs of the names-only relation: (--ff=B --usernames=U) and (--ff=B --userff=<verbatim copy of B.DAT>
+    --usernames=U).  The selected force field is a function of the selected files' content, so both must assign
+    the same parameters to every atom and leave the same atoms unassigned."""
+    d = ctx.scratch_dir()
+    U = d / "only.names"
+    U.write_text(names_text)
+    D = d / "copy.dat"
+    D.write_text((core.REPO / "pdb2pqr" / "dat" / f"{base}.DAT").read_text())
+    capx = e2e_run(ctx, src, base, [f"--usernames={U}"])
+    capy = e2e_run(ctx, src, base, [f"--userff={D}", f"--usernames={U}"])
+    return capx, capy
+
+
+def names_only_diff(capx, capy):
+    """None, or a description of the first difference between the two runs"""
+    if ("groups" in capx) != ("groups" in capy):
+        return f"one run assigned parameters, the other did not: {capx.get('err')} / {capy.get('err')}"
+    if "groups" not in capx:
+        return None
+    if len(capx["groups"]) != len(capy["groups"]):
+        return f"{len(capx['groups'])} vs {len(capy['groups'])} residues"
+    hx = {i: (q, r) for i, q, r in capx["hits"]}
+    hy = {i: (q, r) for i, q, r in capy["hits"]}
+    nx = {i: a for i, _, a, _ in capx["recs"]}
+    ny = {i: a for i, _, a, _ in capy["recs"]}
+    rx = {i: r for i, _, _, r in capx["recs"]}
+    for (lx, idsx), (ly, idsy) in zip(capx["groups"], capy["groups"]):
+        bx = {nx[i]: hx.get(i) for i in idsx}
+        by = {ny[i]: hy.get(i) for i in idsy}
+        if lx != ly or bx != by:
+            a = sorted(set(bx) | set(by), key=lambda k: (bx.get(k) == by.get(k), k))[0]
+            return f"residue {rx[idsx[0]] if idsx else '?'} looked up as {lx} / {ly}: atom {a} gets {bx.get(a, 'absent')} with --usernames alone, {by.get(a, 'absent')} with the same names file and a verbatim copy of the built-in parameter file"
+    return None
+
+
+def names_only_runs(ctx, thorough):
+    """--usernames WITHOUT --userff (legal: check_files accepts it, Forcefield honours it): a built-in names file with
+    one or two <residue> sections removed, on structures that use the removed mapping."""
+    import re as _re
+
+    from harness.props import c02 as C2
+
+    bases = FFS if thorough else [ctx.rng.choice(FFS), "AMBER"]
+    for base in dict.fromkeys(bases):
+        txt = (core.REPO / "pdb2pqr" / "dat" / f"{base}.names").read_text()
+        secs = list(_re.finditer(r"[ \t]*<residue>.*?</residue>[ \t]*\n?", txt, _re.S))
+        if not secs:
+            continue
+        inputs = [("1AJJ.pdb", None)]
+        cases = [c for c in C2.triple_cases(ctx.rng, [base], ctx.rng.randrange(0, 7)) if not c.get("opts")]
+        for case in ctx.rng.sample(cases, min(3 if thorough else 1, len(cases))):
+            inputs.append(("builder", case))
+        for label, case in inputs:
+            d = ctx.scratch_dir()
+            if case is None:
+                src = str(core.REPO / "tests" / "data" / label)
+                pdbref = label
+            else:
+                try:
+                    text, _ = C2.pdb_text(case["spec"], ter=case.get("ter", True))
+                except Exception as e:  # builder trouble
+                    ctx.count(f"names-only:skipped-{type(e).__name__}")
+                    continue
+                f = d / "n.pdb"
+                f.write_text(text)
+                src = str(f)
+                pdbref = {"label": "builder:" + "-".join(case["spec"][0]["segments"][0]), "builder_spec": case["spec"], "ter": case.get("ter", True)}
+            capz = e2e_run(ctx, src, base, [])
+            want, tries, judged = (3 if thorough else 2), 0, 0
+            wat = [m for m in secs if _re.search(r"<name>\s*(WAT|HOH)", m.group(0))]
+            order = list(secs)
+            ctx.rng.shuffle(order)
+            if case is None and wat:  # the water mapping: a whole-residue change that keeps the total integral
+                order = wat[:1] + order
+            for m0 in order:
+                if judged >= want or tries >= (10 if thorough else 6):
+                    break
+                tries += 1
+                drop = [m0] + ([ctx.rng.choice(secs)] if ctx.rng.random() < 0.2 else [])
+                names_text = txt
+                for m in sorted(set(drop), key=lambda m: -m.start()):
+                    names_text = names_text[: m.start()] + names_text[m.end() :]
+                capx, capy = names_only_pair(ctx, src, base, names_text)
+                matters = names_only_diff(capy, capz) is not None
+                ctx.count(f"names-only:{base}:{'mapping-matters' if matters else 'mapping-unused'}")
+                ctx.evaluated(("names-only", base, core.sha(names_text), str(label)), matters)
+                judged += 1 if matters else 0
+                why = names_only_diff(capx, capy)
+                if why:
+                    ctx.fail(
+                        {"site": "main.non_trivial/forcefield.Forcefield", "condition": "user-names-file-not-honoured-without-userff", "ff": base},
+                        f"{pdbref if isinstance(pdbref, str) else pdbref['label']} --ff={base} --usernames=<{base}.names minus {len(set(drop))} section(s)>: {why}",
+                        {"pdb": pdbref, "ff": base, "names_only": names_text},
+                    )
+
+
 def fmt4(scaled):
     """'%.4f' of a scaled-by-1e8 exact decimal, as Python formats the float."""
     return f"{float(Decimal(scaled) / (Decimal(10) ** SCALE)):.4f}"
@@ -482,6 +579,7 @@ def run(ctx):
             for _, lname, aname, _ in cap["recs"]:
                 pairs_by_ff.setdefault(ff, set()).add((lname, aname))
     userff_runs(ctx, thorough=(ctx.thorough or not ok or corr_broken))
+    names_only_runs(ctx, thorough=(ctx.thorough or not ok or corr_broken))
     # model lookups, one Coq evaluation per force field
     expected = {}
     for ff, pairs in pairs_by_ff.items():
@@ -586,6 +684,20 @@ def replay(ctx, data):
     if r is not None:
         return r
     case = data["case"]
+    if "names_only" in case:
+        if isinstance(case["pdb"], dict):
+            from harness.props import c02 as C2
+
+            text, _ = C2.pdb_text(case["pdb"]["builder_spec"], ter=case["pdb"].get("ter", True))
+            f = ctx.scratch_dir() / "replay.pdb"
+            f.write_text(text)
+            src = str(f)
+        else:
+            src = str(core.REPO / "tests" / "data" / case["pdb"])
+        why = names_only_diff(*names_only_pair(ctx, src, case["ff"], case["names_only"]))
+        print("replay: --usernames alone vs the same names file with a verbatim copy of the built-in parameter file ->", "FAILS: " + why if why else "passes")
+        ctx.cleanup()
+        return 1 if why else 0
     if "history" in case:  # re-play the load history on one path, compare the last load with never-loaded paths
         sys.path.insert(0, str(core.VERIF / "gen"))
         import ff_tables as gen
